@@ -11,18 +11,16 @@ from harness import c02 as P
 import vlib
 
 LEVEL_TEXT = ('Lean 4 theorems about the model of propagate_fft, for all fields, samplings, oversampling factors, shapes and scratch '
-              'buffers: the centred FFT (fftshift . fft2 ortho . ifftshift by their NumPy contracts) equals the unitary dft2 with '
-              'alpha = 1/S and both origins at floor(S/2) for even and odd grids (generic, and instantiated at C/R with no hypotheses); '
-              'for isotropic dx*du the reported wavelength makes alpha = 1/S on both axes, hence every output sample equals dft2 of '
-              'the same padded grid at the reported wavelength; the result with a sufficient scratch buffer of any size and content equals the result without scratch '
-              '(scratch grid = pad(Wavefront.field) proved on the generated insert kernel); a buffer of exactly fft_shape is accepted, smaller ones, shapes with shape*oversample > fft_shape and '
-              'tilted wavefronts are refused. The model is tied to the implementation by a differential correspondence at Float. '
-              'Partial: see note.')
-LEVEL_NOTE = ('Partial: np.fft.fft2/fftshift/ifftshift and np.round enter through their documented contracts (not verified); that '
-              'dft2 of the padded grid is propagate_dft of the individual fields with their offsets is carried by the '
-              'correspondence/oracle (needs C01 dft2_subarray_offset); '
-              'anisotropic dx*du is excluded by hypothesis (known finding KF-C09-fft-anisotropic-wavelength). '
-              'Trusted: Lean kernel, py2lean subset semantics, generator coverage.')
+              'buffers: at C/R and isotropic dx·du, every sample of Wavefront.field of propagate_fft equals the sample of Wavefront.field of '
+              'the propagate_dft model (C02, proved against the Fraunhofer sum) at the reported wavelength, for every accepted output shape, '
+              'with or without scratch (centred FFT = unitary dft2 with alpha = 1/S for both parities by the NumPy contracts; reported '
+              'wavelength makes alpha = 1/S; dft2 of the padded grid = sum of per-field dft2 with offsets); the result with a sufficient '
+              'scratch of any size/content equals the result without; a buffer of exactly fft_shape is accepted, smaller ones, shapes with '
+              'shape·oversample > fft_shape and wavefronts in which ANY field carries tilt are refused. Scratch slice regions, _has_tilt, '
+              '_dft_alpha and the _fft_shape wiring are regenerated from propagate.py; the rest is a hand model with differential correspondence.')
+LEVEL_NOTE = ('Partial: np.fft.fft2/fftshift/ifftshift and np.round/np.min enter through their documented contracts (not verified); '
+              'util.pad is a hand model; scratch_shape for a list of wavelengths (np.max) is oracle-only; anisotropic dx·du is excluded by '
+              'hypothesis (known finding KF-C09-fft-anisotropic-wavelength). Trusted: Lean kernel, py2lean subset semantics, generator coverage.')
 TECHNIQUE = 'Lean 4 proof (finite-sum reindexing, omega) over hand model with differential correspondence at Float'
 GEN = ['Extent', 'FieldIdx', 'FftScratch', 'PropagateMeta']
 OPS = ['C02', 'C09']
@@ -34,7 +32,7 @@ RULE = ('cases: pupils 1..6 x 1..6 (even/odd/non-square, off-centre, segmented) 
         'non-trivial = odd grid or scratch or explicit shape or refusal')
 TRUSTED = ['np.fft.fft2(norm="ortho") = unitary DFT with origin at index 0; np.fft.fftshift/ifftshift = rotations by +-floor(n/2); '
            'np.round = round-half-even; lentil.field.insert as modelled by insertArr (C06)']
-UNPROVEN = ['dft2 of the padded grid = propagate_dft of the individual fields with offsets (C01 dft2_subarray_offset + C02; oracle-checked)',
+UNPROVEN = ['scratch_shape(wavelength=list) is sufficient for every listed wavelength (np.max; monotonicity of round(1/alpha) in wavelength): oracle only',
             'anisotropic dx*du (known finding): a single reported wavelength cannot describe two per-axis grids']
 ASSUMPTIONS = ['pupil (wavefront.shape) no larger than the FFT grid; isotropic dx*du for the FFT = DFT clause; oversample >= 1']
 
